@@ -70,6 +70,24 @@ def _removes_own_scratch(ck, fi, call) -> bool:
     return any(_same_path(fa, tgt, call, p_, c) for (c, p_) in scratch)
 
 
+def _writes_pointer(ck, fi, call) -> bool:
+    """`call` (a write-mode open / Path.write_text) writes the link path of a key itself -- by the role of the path, not by where it stands."""
+    from .c08 import path_role, open_path
+    fa = FA(ck, fi)
+    tgt = call.func.value if A.call_attr(call) in ("write_text", "write_bytes") and isinstance(call.func, ast.Attribute) else open_path(call)
+    return bool(fa.nodes(call)) and tgt is not None and path_role(fa, tgt, fa.nodes(call)[0]) == "pointer"
+
+
+def _pointer_publications(ck, fa):
+    """Where `fa` makes an object the one its key designates: calls of the data source's pointer writers, and the pointer written
+    (or atomically replaced) on the spot."""
+    from .c08 import pointer_writers, write_opens, _atomic_publications
+    names = pointer_writers(ck) | {"_write_non_versioned_link"}
+    out = [c for c in fa.calls() if fa.nodes(c) and A.call_attr(c) in names and A.dotted(A.call_recv(c)) in ("self", "cls")]
+    out += [c for c in write_opens(ck, fa)["pointer"] if fa.nodes(c)] + [c for c in _atomic_publications(fa) if fa.nodes(c)]
+    return out
+
+
 def _staged_onto_absent_object(ck, fi, wopen) -> bool:
     """The file opened for writing at `wopen` is a scratch file (a name outside the key scheme) and every move of it goes onto the
     version-object path of a key that the path conditions establish to be absent (`exists_versioned(k)` / `<path>.exists()` false)."""
@@ -259,7 +277,13 @@ def check(ck):
     ck_f = FA(ck, "storage_base.Codec.Strategy.output_key_for_content_key")
     r = ck_f.one(ck_f.returns(), "return")
     cp = ck_f.fi.params[1] if len(ck_f.fi.params) > 1 else "content_key"
-    okc = "attr:%s.key" % cp in ck_f.deps(r.value) and any(s.startswith("c/") for s in A.strings_in(r.value))
+    # the text that is built, whichever way it is spelled ("c/{}".format(h), "{}/{}".format(AREA, h), "c/" + h, f"c/{h}"): the literal
+    # area prefix followed by exactly one value, the hash
+    okc = False
+    for x in ast.walk(ck_f.expand(r.value, ck_f.nodes(r)[0]) if ck_f.nodes(r) else r.value):
+        t = _template(x)
+        if t is not None and t[0] == "c/{}" and len(t[1]) == 1 and A.norm(_unwrap_str(t[1][0])) == "%s.key" % cp:
+            okc = True
     ck.ob(R1, ck_f.key(r), okc, "content keys live under c/<hash>" if okc else "content key path no longer derives from the hash", ck_f.where(r))
 
     # ---- R2
@@ -273,10 +297,31 @@ def check(ck):
     _rest(ck, fa, R3, R4, R5, R6)
 
 
+def _template(e):
+    """A.str_template, also for `"<sep>".join((a, b, ...))` over a display (the parts concatenated with the separator between them)."""
+    if isinstance(e, ast.Call) and isinstance(e.func, ast.Attribute) and e.func.attr == "join" and A.const_str(e.func.value) is not None \
+            and len(e.args) == 1 and not e.keywords and isinstance(e.args[0], (ast.Tuple, ast.List)) and e.args[0].elts \
+            and not any(isinstance(x, ast.Starred) for x in e.args[0].elts):
+        sep = A.const_str(e.func.value)
+        acc = None
+        for x in e.args[0].elts:
+            if acc is not None and sep:
+                acc = ast.BinOp(left=acc, op=ast.Add(), right=ast.Constant(sep))
+            acc = x if acc is None else ast.BinOp(left=acc, op=ast.Add(), right=x)
+        e = ast.fix_missing_locations(ast.copy_location(acc, e)) if acc is not e.args[0].elts[0] else acc
+    return A.str_template(e)
+
+
+def _unwrap_str(e):
+    while isinstance(e, ast.Call) and isinstance(e.func, ast.Name) and e.func.id == "str" and len(e.args) == 1 and not e.keywords:
+        e = e.args[0]
+    return e
+
+
 def _content_key_template(ck):
     """The text the content key builder puts around the hash: 'c/{}'."""
     ck_fa = FA(ck, "storage_base.Codec.Strategy.output_key_for_content_key")
-    tm = [A.str_template(x) for r in ck_fa.returns() if r.value is not None for x in ast.walk(r.value)]
+    tm = [_template(x) for r in ck_fa.returns() if r.value is not None for x in ast.walk(r.value)]
     tm = [t for t in tm if t is not None and t[0].endswith("{}") and len(t[0]) > 2]
     return tm[0][0] if tm else None
 
@@ -292,7 +337,7 @@ def _spells_content_key(fa, leaf, n, tpl) -> bool:
     if not (isinstance(e, ast.Call) and A.call_attr(e) == "DataSourceKey" and len(e.args) + len(e.keywords) == 1):
         return False
     arg = e.args[0] if e.args else e.keywords[0].value
-    t = A.str_template(arg)
+    t = _template(arg)
     return t is not None and t[0] == tpl and len(t[1]) == 1
 
 
@@ -537,7 +582,7 @@ def check_override_namespace(ck, R):
     is caller-chosen text.  The override key builder refuses (or escapes) keys that fall under the prefix the
     content key builder uses, so no object can sit under a content key that its bytes do not hash to."""
     ck_fa = FA(ck, "storage_base.Codec.Strategy.output_key_for_content_key")
-    tm = [A.str_template(x) for r in ck_fa.returns() if r.value is not None for x in ast.walk(r.value)]
+    tm = [_template(x) for r in ck_fa.returns() if r.value is not None for x in ast.walk(r.value)]
     tm = [t for t in tm if t is not None and t[0].endswith("{}") and len(t[0]) > 2]
     ck.need(tm, "output_key_for_content_key: cannot identify the content prefix")
     prefix = tm[0][0][:-2]            # 'c/'
@@ -931,6 +976,10 @@ def _rest(ck, fa, R3, R4, R5, R6):
                 fi = ck.cg.funcs[q]
                 ok = q in WRITE_OPEN_SITES
                 why = WRITE_OPEN_SITES.get(q, "")
+                if not ok and fi.cls is not None and fi.cls.qual == FSDS and _writes_pointer(ck, fi, n):
+                    # the pointer file is the one mutable name of a key, wherever in the data source it is written (when, and after
+                    # what, is C08.R1 / R2's obligation): no stored object is opened
+                    ok, why = True, "pointer file"
                 if not ok and fi.cls is not None and fi.cls.qual == FSDS:
                     # bytes staged under a scratch name and moved onto a version path that does not exist yet: no stored
                     # object is written in place (that the scratch file cannot leak is C05.R5's obligation)
@@ -941,12 +990,26 @@ def _rest(ck, fa, R3, R4, R5, R6):
                         # like any other: unless the key already designates one, it becomes the object its key designates, so that
                         # a later result with the same bytes is stored AS it (the dedupe test of R2 looks at the key) -- D52
                         f2 = FA(ck, fi)
-                        links = [c for c in f2.calls("_write_non_versioned_link") if f2.nodes(c)]
+                        links = _pointer_publications(ck, f2)
 
                         def _excused(conj):
                             return all((not pol) and any(w in txt for w in ("exists", " is self", "self is ", " is None")) for (txt, pol) in conj)
+                        from .c08 import open_path as _op
+
+                        def _key_params(e, at):
+                            return {d_[6:] for d_ in f2.df.deps(e, at) if d_.startswith("param:") and d_[6:] not in ("self", "cls")}
+                        obj_keys = _key_params(_op(n), f2.nodes(n)[0]) if f2.nodes(n) and _op(n) is not None else set()
                         okl = False
                         for c in links:
+                            # ... of the same key: what names the pointer is taken from what names the object brought in
+                            named = [a for a in list(c.args) + [k.value for k in c.keywords]] if A.call_attr(c) not in ("open", "write_text", "write_bytes", "FileIO") \
+                                else [c.func.value if A.call_attr(c) in ("write_text", "write_bytes") and isinstance(c.func, ast.Attribute) else _op(c)]
+                            ptr_keys = set()
+                            for a in named:
+                                if a is not None:
+                                    ptr_keys |= _key_params(a, f2.nodes(c)[0])
+                            if obj_keys and not (ptr_keys and ptr_keys <= obj_keys):
+                                continue
                             conds = f2.conditions(f2.stmt_of(c))
                             if conds and all(_excused(conj) for conj in conds):
                                 okl = True
